@@ -122,6 +122,13 @@ def discharge(ob, inputs, timeout_s=30, use_cvc5=True, ufuns=None):
     r = s.check()
     ob.backend = 'z3'
     if r == z3.unknown:
+        # cheap counter-model attempt first: obligations that do NOT hold are often hard for the solvers and easy to falsify by evaluation
+        m = random_refute(ob, inputs, tries=6)
+        if m is not None:
+            ob.status, ob.backend = 'refuted', 'pyvc:path-condition model + random completion (evaluated counter-model)'
+            ob.model = extract_model(m, inputs, ufuns)
+            ob.time = time.time() - t0
+            return ob
         done = None
         if _relaxed_unsat(ob, min(timeout_s, 6)):
             done = 'z3:real-relaxation(nlsat)'
